@@ -86,11 +86,14 @@ func genC04(seed uint64, idx int, tier string) *Scenario {
 			class = "datagrams-over-limit"
 		}
 	}
-	if (pn == "smtp" || pn == "ftp") && r.Chance(0.25) {
+	if (pn == "smtp" || pn == "ftp" || pn == "ldap") && r.Chance(0.25) {
 		// the session is upgraded to TLS in band first (SMTP STARTTLS / FTP AUTH TLS, lock-step as the protocols
 		// demand); the dialogue then runs inside TLS, one record per segment: the same commands must be captured
 		if pn == "smtp" {
 			a.Ops = append(a.Ops, SendOp([]byte("EHLO tlsprelude.invalid\r\n"), nil, "prelude"), SendOp([]byte("STARTTLS\r\n"), nil, "prelude"))
+		} else if pn == "ldap" {
+			// StartTLS extended request (1.3.6.1.4.1.1466.20037) with a message id the grammar never uses
+			a.Ops = append(a.Ops, SendOp(bSeq(0x30, bInt(0x02, 16000), bSeq(0x77, bStr(0x80, "1.3.6.1.4.1.1466.20037"))).enc(false), nil, "prelude"))
 		} else {
 			a.Ops = append(a.Ops, SendOp([]byte("AUTH TLS\r\n"), nil, "prelude"))
 		}
